@@ -100,7 +100,8 @@ def run(tier: str) -> int:
     max_len = 6 if tier == "quick" else 8
     stats = {"cases": 0, "accepted": 0, "rejected": 0, "accepted_runs_ok": 0, "accepted_runs_proc_error": 0,
              "superset_runs": 0, "facts_nodes_checked": 0, "origins_checked": 0, "unknown_param_cases": 0,
-             "shapes": {"use_before_create": 0, "delete_then_require": 0, "type_change_across_ctx_node": 0, "create_and_require": 0}}
+             "shapes": {"use_before_create": 0, "delete_then_require": 0, "type_change_across_ctx_node": 0, "create_and_require": 0,
+                        "falsy_value_created": 0}}
     reqs, cases = [], []
     for i in range(n_cases):
         nodes, ctx0, meta = pipegen.gen_pipeline(rnd, max_len=max_len, p_misfit=0.06)
@@ -125,6 +126,13 @@ def run(tier: str) -> int:
         elif r < 0.30:
             nodes = [{"processor": "TSourceDef"}, {"processor": 'template:"{c}x":c'}, {"processor": "TProbeP", "context_key": "a"}] + nodes[:2]
             stats["shapes"]["create_and_require"] += 1
+        elif r < 0.36:
+            # a key created with a falsy value (0, 0.0, False, "", [], null) is created all the same
+            k = rnd.choice(["a", "c"])
+            falsy = rnd.choice([0, 0.0, False, "", [], None])
+            consumer = {"processor": "TOp1"} if k == "a" else {"processor": f'template:"{{{k}}}x":b'}
+            nodes = [{"processor": "TSourceDef"}, {"processor": "TProbeEcho", "parameters": {"val": falsy}, "context_key": k}, consumer] + nodes[:1]
+            stats["shapes"]["falsy_value_created"] += 1
         cases.append(nodes)
         reqs.append({"m": "c02.analyse", "id": i, "nodes": [pipegen.model_node(n) for n in nodes], "dtype": first_input_type(nodes)})
     model = None
